@@ -10,6 +10,7 @@ mod proj;
 mod sim;
 mod simquic;
 mod util;
+mod wt;
 
 use std::process::exit;
 
